@@ -7,11 +7,15 @@ import (
 	"fmt"
 	"go/ast"
 	"go/types"
+	"strings"
 )
 
 func (fx *Fx) stdlibCall(st *State, fn *types.Func, recvExpr ast.Expr, call *ast.CallExpr, spec bool) []Val {
 	var args []Val
 	if recvExpr != nil {
+		if strings.HasPrefix(fn.FullName(), "(*sync.") && fx.mutexCall(st, fn.FullName(), recvExpr) {
+			return nil
+		}
 		recv := fx.eval(st, recvExpr, spec)
 		for _, a := range call.Args {
 			args = append(args, fx.eval(st, a, spec))
@@ -30,12 +34,7 @@ func (fx *Fx) stdlibCall(st *State, fn *types.Func, recvExpr ast.Expr, call *ast
 	sig := fn.Type().(*types.Signature)
 	switch name {
 	case "strings.IndexByte":
-		s, c := args[0], args[1]
-		r := fx.d.freshConst("indexbyte", SInt)
-		st.assume(and(app("<=", "(- 1)", r), app("<", r, app("slen", s.X))))
-		st.assume(implies(app(">=", r, "0"), app("=", app("sat", s.X, r), c.X)))
-		st.assume(fmt.Sprintf("(forall ((i Int)) (! (=> (and (<= 0 i) (< i (ite (>= %s 0) %s (slen %s)))) (not (= (sat %s i) %s))) :pattern ((sat %s i))))", r, r, s.X, s.X, c.X, s.X))
-		return []Val{{T: types.Typ[types.Int], S: SInt, X: r}}
+		return []Val{fx.indexByte(st, args[0], args[1])}
 	case "strings.HasPrefix":
 		s, p := args[0], args[1]
 		if p.Lit == nil {
@@ -73,6 +72,30 @@ func (fx *Fx) stdlibCall(st *State, fn *types.Func, recvExpr ast.Expr, call *ast
 		st.assume(implies(or(app("=", e.X, "nil"), app("=", t.X, "nil")), app("=", b, app("=", e.X, t.X))))
 		st.assume(implies(app("=", e.X, t.X), b))
 		return boolV(b)
+	case "strings.IndexFunc":
+		// only for the predicate "is not an ASCII digit" (every byte of a multi-byte rune is >= 0x80, so bytes decide)
+		lit, _ := ast.Unparen(call.Args[1]).(*ast.FuncLit)
+		if lit == nil || !isNonDigitPredicate(lit) {
+			panic(unsupported("strings.IndexFunc with a predicate other than `r < '0' || r > '9'`"))
+		}
+		sv := args[0]
+		r := fx.d.freshConst("indexfunc", SInt)
+		digit := func(x string) string { return and(app("<=", "48", x), app("<=", x, "57")) }
+		st.assume(and(app("<=", "(- 1)", r), app("<", r, app("slen", sv.X))))
+		st.assume(implies(app(">=", r, "0"), not(digit(app("sat", sv.X, r)))))
+		st.assume(fmt.Sprintf("(forall ((i Int)) (! (=> (and (<= 0 i) (< i (ite (>= %s 0) %s (slen %s)))) %s) :pattern ((sat %s i))))", r, r, sv.X, digit(app("sat", sv.X, "i")), sv.X))
+		return []Val{{T: types.Typ[types.Int], S: SInt, X: r}}
+	case "unicode/utf8.DecodeRuneInString":
+		return []Val{fx.freshVal(st, "rune", sig.Results().At(0).Type()), fx.freshVal(st, "size", sig.Results().At(1).Type())}
+	case "encoding/json.Unmarshal":
+		// into *string: an arbitrary string, or an error (the target is then left as it was or holds anything)
+		e := fx.d.freshConst("json_err", SRef)
+		l := fx.derefLoc(st, args[1])
+		if fx.d.sortOf(l.T) != SStr {
+			panic(unsupported("json.Unmarshal into " + l.T.String()))
+		}
+		fx.store(st, l, fx.freshVal(st, "json_string", l.T))
+		return []Val{{T: sig.Results().At(0).Type(), S: SRef, X: e}}
 	case "time.Now":
 		r := fx.d.freshConst("now", SInt)
 		st.assume(not(app("=", r, "0")))
@@ -87,6 +110,27 @@ func (fx *Fx) stdlibCall(st *State, fn *types.Func, recvExpr ast.Expr, call *ast
 		return []Val{{T: sig.Results().At(0).Type(), S: SRef, X: fx.alloc(st, "rng")}}
 	}
 	panic(unsupported("standard library function " + name))
+}
+
+func isNonDigitPredicate(lit *ast.FuncLit) bool {
+	if len(lit.Body.List) != 1 {
+		return false
+	}
+	ret, ok := lit.Body.List[0].(*ast.ReturnStmt)
+	if !ok || len(ret.Results) != 1 {
+		return false
+	}
+	return exprText(ret.Results[0]) == "r < '0' || r > '9'"
+}
+
+// indexByte: strings.IndexByte as an uninterpreted function whose defining facts are instantiated per use.
+func (fx *Fx) indexByte(st *State, s, c Val) Val {
+	f := fx.d.declareFun("indexbyte", []string{SStr, SInt}, SInt)
+	r := app(f, s.X, c.X)
+	st.assume(and(app("<=", "(- 1)", r), app("<", r, app("slen", s.X))))
+	st.assume(implies(app(">=", r, "0"), app("=", app("sat", s.X, r), c.X)))
+	st.assume(fmt.Sprintf("(forall ((i Int)) (! (=> (and (<= 0 i) (< i (ite (>= %s 0) %s (slen %s)))) (not (= (sat %s i) %s))) :pattern ((sat %s i))))", r, r, s.X, s.X, c.X, s.X))
+	return Val{T: types.Typ[types.Int], S: SInt, X: r}
 }
 
 func (fx *Fx) stdlibMethod(st *State, fn *types.Func, recv Val, args []Val) ([]Val, bool) {
